@@ -502,14 +502,14 @@ def coq_term(c):
         if c.get("default_clk") is not None:
             h.append([c["default_clk"][0], c["default_clk"][1], "-", None])
         return (f"k_constraints {g_tbl(c['tbl'])} {g_cm(c['conn'])} {g_hist(h)} "
-                f"{blit(c['vendor'] == 'gowin')} {blit(c['vendor'] != 'ice40')} {blit(c['vendor'] != 'gowin')}")
+                f"{ {'ecp5': 0, 'gowin': 1, 'ice40': 2}[c['vendor']] } {blit(c['vendor'] != 'ice40')} {blit(c['vendor'] != 'gowin')}")
     return f"k_hist {g_tbl(c['tbl'])} {g_cm(c['conn'])} {g_hist(c['hist'])}"
 
 
 # ------------------------------------------------------------------ generators
 def gen_conns(rng, npins, allow_bad):
     """connector tables: chains of length <= 3; optionally dangling references / cycles."""
-    nconn = rng.randrange(0, 4)
+    nconn = rng.randrange(1 if allow_bad else 0, 4)
     conns = []
     for c in range(nconn):
         npin = rng.randrange(1, 4)
@@ -524,7 +524,7 @@ def gen_conns(rng, npins, allow_bad):
             else:
                 entries.append([k, ["p", rng.randrange(0, npins)]])
         conns.append([c, entries, rng.choice(["dict", "dict", "conn", "str"])])
-    if allow_bad and conns and rng.random() < 0.5:
+    if allow_bad and conns and rng.random() < 0.8:
         # make a cycle: some entry points to itself or to a higher connector that points back
         c = rng.randrange(0, len(conns))
         e = rng.choice(conns[c][1])
@@ -688,12 +688,12 @@ def gen_cases(tier, seed):
     maps = small_scope_maps()
     cyc = [c for c in maps if c["cyc"]]
     acy = [c for c in maps if not c["cyc"]]
-    ncyc = 48 if not thorough else 400
+    ncyc = 48 if not thorough else 300
     rng.shuffle(cyc)
     cyc = cyc[:ncyc]
     cases += acy
     cases += small_scope_hists()
-    N = 1500 if not thorough else 40000
+    N = 1000 if not thorough else 8000
     for i in range(N):
         bad = i % 4 == 3
         npins = rng.randrange(3, 13)
@@ -702,13 +702,17 @@ def gen_cases(tier, seed):
         cases.append({"k": "hist", "tbl": tbl, "conn": conns, "cyc": False,
                       "hist": gen_history(rng, tbl, rng.randrange(1, 13), bad)})
     # cyclic connector tables inside histories (few: each hang costs HANG_TIMEOUT)
-    for i in range(16 if not thorough else 120):
+    for i in range(16 if not thorough else 150):
         npins = rng.randrange(3, 8)
         conns = gen_conns(rng, npins, True)
         tbl = gen_table(rng, rng.randrange(1, 5), npins, conns, False)
+        for num, node in tbl:          # make sure connector pins are used
+            if node[0] == "L" and rng.random() < 0.6:
+                c0 = rng.randrange(0, len(conns))
+                node[3] = ["P", [["c", c0, rng.choice([e[0] for e in conns[c0][1]])]]]
         cases.append({"k": "hist", "tbl": tbl, "conn": conns, "cyc": has_cycle(conns),
                       "hist": gen_history(rng, tbl, rng.randrange(1, 6), False)})
-    NB = 40 if not thorough else 600
+    NB = 40 if not thorough else 300
     for vendor in ("ice40", "ecp5", "gowin"):
         for i in range(NB):
             npins = rng.randrange(4, 13)
@@ -774,13 +778,6 @@ def known_finding(c, obs, model):
             and list(obs[:-1]) == list(model[:-1]):
         return "S4-cyclic-connectors-hang"
     return None
-
-
-def shrink(c, obs, model):
-    if c["k"] != "hist":
-        return c, obs, model
-    best = (c, obs, model)
-    return best
 
 
 def explain(c):
